@@ -72,6 +72,7 @@ type BoundsAnalysis struct {
 	rets            map[*ssa.Function]*retSummary
 	AssumptionSites []string
 	FuncsAnalysed   map[*ssa.Function]bool
+	retTaintMemo    map[*ssa.Function]bool
 }
 
 // fsum: summary of one (function, tainted-params) analysis
@@ -340,6 +341,7 @@ type fctx struct {
 	psiSeen       []*psiNode
 	phiSeen       []*ssa.Phi
 	cycleHits     int
+	cintr         map[string][]condFact
 }
 
 type ivInfo struct {
@@ -400,6 +402,39 @@ func (ba *BoundsAnalysis) analyse(fn *ssa.Function, tparams map[int]bool, tfree 
 	c.sinks()
 	c.loopProgress()
 	return s
+}
+
+// returnsTainted: with no tainted parameter, does fn return data read from a tainted field
+// (directly or through its callees)? Taint propagation only; memoised; recursion sees false.
+func (ba *BoundsAnalysis) returnsTainted(fn *ssa.Function) bool {
+	if ba.retTaintMemo == nil {
+		ba.retTaintMemo = map[*ssa.Function]bool{}
+	}
+	if v, ok := ba.retTaintMemo[fn]; ok {
+		return v
+	}
+	ba.retTaintMemo[fn] = false
+	if fn.Blocks == nil {
+		return false
+	}
+	c := &fctx{ba: ba, fn: fn, taint: map[ssa.Value]uint8{}, linMemo: map[ssa.Value]*Lin{}, intr: map[string][]Constraint{},
+		disp: map[string]string{}, ivs: map[*ssa.Phi]*ivInfo{}, branch: map[*ssa.BasicBlock][]Constraint{},
+		storesToField: map[string]bool{}, allocStores: map[*ssa.Alloc][]*ssa.Store{}, inProgress: map[ssa.Value]bool{},
+		paramIdx: map[*ssa.Parameter]int{}, sum: &fsum{}}
+	c.prepass()
+	c.propagateTaint()
+	res := false
+	Instrs(fn, func(i ssa.Instruction) {
+		if ret, ok := i.(*ssa.Return); ok {
+			for _, r := range ret.Results {
+				if c.taint[r] != 0 {
+					res = true
+				}
+			}
+		}
+	})
+	ba.retTaintMemo[fn] = res
+	return res
 }
 
 // ---- pre-pass: stores -------------------------------------------------------------
@@ -1146,6 +1181,9 @@ func (c *fctx) propagateTaint() {
 			switch x := i.(type) {
 			case *ssa.UnOp:
 				mark(v, c.taint[x.X])
+				if x.Op == token.MUL && c.tv(x.X) && isSliceLike(v.Type()) {
+					mark(v, tV|tL) // an element of attacker-filled nested data: its length is attacker-chosen too
+				}
 				if x.Op == token.MUL {
 					if fa, ok := x.X.(*ssa.FieldAddr); ok {
 						if f, ok := FieldOf(fa); ok && c.ba.Cfg.TaintedFields[f] {
@@ -1177,6 +1215,9 @@ func (c *fctx) propagateTaint() {
 			case *ssa.Index:
 				if c.tv(x.X) {
 					mark(v, tV)
+					if isSliceLike(v.Type()) {
+						mark(v, tL)
+					}
 				}
 			case *ssa.IndexAddr:
 				if c.tv(x.X) {
@@ -1235,6 +1276,12 @@ func (c *fctx) propagateTaint() {
 				any := false
 				for _, a := range x.Call.Args {
 					if c.taint[a] != 0 {
+						any = true
+					}
+				}
+				// accessor methods handing out a tainted field of their (untainted) receiver
+				if !any && len(c.ba.Cfg.TaintedFields) > 0 {
+					if callee := StaticCallee(x); callee != nil && core.InModule(callee) && c.ba.returnsTainted(callee) {
 						any = true
 					}
 				}
@@ -1816,6 +1863,28 @@ type retSummary struct {
 type retCase struct {
 	lo, hi []*big.Rat
 	leLen  [][]bool
+	nn     []int8 // per result: 0 = the nil constant, 1 = certainly not nil, -1 = unknown / not a reference
+}
+
+// nilness of a returned reference value: constant nil, or a freshly made value
+func nilnessOf(v ssa.Value) int8 {
+	switch x := v.(type) {
+	case *ssa.Const:
+		if x.Value == nil {
+			switch x.Type().Underlying().(type) {
+			case *types.Interface, *types.Pointer, *types.Slice, *types.Map:
+				return 0
+			}
+		}
+	case *ssa.MakeInterface, *ssa.Alloc, *ssa.MakeSlice, *ssa.MakeMap:
+		return 1
+	case *ssa.Call:
+		switch CallName(x) {
+		case "errors.New", "fmt.Errorf":
+			return 1
+		}
+	}
+	return -1
 }
 
 func (ba *BoundsAnalysis) retSum(fn *ssa.Function) *retSummary {
@@ -1855,10 +1924,12 @@ func (ba *BoundsAnalysis) retSum(fn *ssa.Function) *retSummary {
 		if !ok || len(ret.Results) != nres {
 			continue
 		}
-		rc := retCase{lo: make([]*big.Rat, nres), hi: make([]*big.Rat, nres), leLen: make([][]bool, nres)}
+		rc := retCase{lo: make([]*big.Rat, nres), hi: make([]*big.Rat, nres), leLen: make([][]bool, nres), nn: make([]int8, nres)}
 		c.at, c.atEnd = ret, nil
 		for j, rv := range ret.Results {
+			rc.nn[j] = -1
 			if _, _, ok := intRange(rv.Type()); !ok {
+				rc.nn[j] = nilnessOf(rv)
 				continue
 			}
 			l := c.lin(rv)
@@ -1971,6 +2042,17 @@ func (c *fctx) applyRetSummary(call *ssa.Call, idx int, atom string) {
 			var cs []Constraint
 			why := fmt.Sprintf("return site %d of %s", ci+1, nm)
 			for j := range rc.lo {
+				if j < len(rc.nn) && rc.nn[j] >= 0 {
+					// nil-ness of a reference result at this return site, as a 0/1 pseudo-variable
+					for _, r := range *call.Referrers() {
+						if ex, ok := r.(*ssa.Extract); ok && ex.Index == j {
+							na := "nn:" + ex.Name()
+							c.atomCall[na] = call.Name()
+							k := int64(rc.nn[j])
+							cs = append(cs, GE0(LinAtom(na).AddConst(-k), why), GE0(LinAtom(na).Scale(-1).AddConst(k), why))
+						}
+					}
+				}
 				a := resAtom(j)
 				if a == "" {
 					continue
@@ -2055,6 +2137,14 @@ func (c *fctx) linBinOp(x *ssa.BinOp) *Lin {
 				c.intr[k] = append(c.intr[k], GE0(l, "x%K >= 0"), GE0(ly.AddConst(-1).Sub(l), "x%K <= K-1"))
 			}
 		case token.QUO:
+			if ly.IsConst() && ly.C.Sign() > 0 && !unsignedX {
+				// truncated division of a possibly negative x: a positive quotient implies K*q <= x
+				if c.cintr == nil {
+					c.cintr = map[string][]condFact{}
+				}
+				kq := NewLin().AddScaled(l, ly.C)
+				c.cintr[k] = append(c.cintr[k], condFact{pre: l.AddConst(-1), post: GE0(lx.Sub(kq), "q = x/K >= 1 implies K*q <= x")})
+			}
 			if ly.IsConst() && ly.C.Sign() > 0 && unsignedX {
 				// K*q <= x <= K*q + K-1
 				kq := NewLin().AddScaled(l, ly.C)
@@ -2574,6 +2664,24 @@ func (c *fctx) condFacts(cond ssa.Value, truth bool, depth int) []Constraint {
 		default:
 			return nil
 		}
+		if op == token.EQL || op == token.NEQ {
+			// e != nil / e == nil on a result of a module call: fact on the result's nil-ness pseudo-variable
+			var other ssa.Value
+			if k, ok := x.Y.(*ssa.Const); ok && k.Value == nil && !isBasicT(k.Type()) {
+				other = x.X
+			} else if k, ok := x.X.(*ssa.Const); ok && k.Value == nil && !isBasicT(k.Type()) {
+				other = x.Y
+			}
+			if ex, ok := other.(*ssa.Extract); ok {
+				nonNil := (op == token.NEQ) == truth
+				na := "nn:" + ex.Name()
+				why := fmt.Sprintf("branch on nil-ness of %s at %s", ex.Name(), c.ba.Prog.Pos(x.Pos()))
+				if nonNil {
+					return []Constraint{GE0(LinAtom(na).AddConst(-1), why)}
+				}
+				return []Constraint{GE0(LinAtom(na).Scale(-1), why)}
+			}
+		}
 		if _, _, ok := intRange(x.X.Type()); !ok {
 			return nil
 		}
@@ -3002,15 +3110,48 @@ func (c *fctx) gatherAtoms(b *ssa.BasicBlock, target *Lin) ([]Constraint, map[st
 	for _, f := range facts {
 		add(f.L)
 	}
-	for len(work) > 0 {
-		a := work[len(work)-1]
-		work = work[:len(work)-1]
-		for _, f := range c.intr[a] {
-			facts = append(facts, f)
-			add(f.L)
+	closure := func() {
+		for len(work) > 0 {
+			a := work[len(work)-1]
+			work = work[:len(work)-1]
+			for _, f := range c.intr[a] {
+				facts = append(facts, f)
+				add(f.L)
+			}
+		}
+	}
+	closure()
+	if len(c.cintr) > 0 {
+		used := map[string]bool{}
+		for round := 0; round < 2; round++ {
+			more := false
+			for a := range seen {
+				for i, cf := range c.cintr[a] {
+					key := fmt.Sprintf("%s#%d", a, i)
+					if used[key] {
+						continue
+					}
+					if Entails(facts, cf.pre) {
+						used[key] = true
+						facts = append(facts, cf.post)
+						add(cf.post.L)
+						more = true
+					}
+				}
+			}
+			closure()
+			if !more {
+				break
+			}
 		}
 	}
 	return facts, seen
+}
+
+// condFact: post holds whenever pre >= 0 is entailed
+type condFact struct {
+	pre  *Lin
+	post Constraint
 }
 
 // ---- loop progress ----------------------------------------------------------------------
@@ -3602,4 +3743,9 @@ func (c *fctx) closureSite(mc *ssa.MakeClosure) {
 	for _, pc := range sum.pre {
 		pc.ob.Proven = false
 	}
+}
+
+func isBasicT(t types.Type) bool {
+	_, ok := t.Underlying().(*types.Basic)
+	return ok
 }
